@@ -48,7 +48,8 @@ Record edit_ok (s : state) (T : cell -> bool) (s' : state) : Prop := {
   e_fml : forall c, T c = false -> fml s' c = fml s c;
   e_old : forall c, dirty s c = true -> fml s' c <> None -> dirty s' c = true;
   e_T : forall c, T c = true -> fml s' c <> None -> dirty s' c = true;
-  e_closed : forall d c, T d = true \/ (dirty s' d = true /\ dirty s d = false) ->
+  e_closed : forall d c, (T d = true /\ (fml s d <> None -> dirty s d = false)) \/
+                         (dirty s' d = true /\ dirty s d = false) ->
              links s d c -> fml s' c <> None -> dirty s' c = true;
   e_links : forall d c, fml s' c <> None -> dirty s' c = false -> links s d c -> links s' d c;
   e_guard : forall c d p, fml s' c <> None -> dirty s' c = false -> guarded s c d p ->
